@@ -47,6 +47,11 @@ func (v *Verifier) VerifyFunc(f *ssa.Function, fc *FuncContract) (res *FuncResul
 	}
 	st := newState()
 	fr := &Frame{fn: f, fc: fc, loops: computeLoops(f), params: map[string]Val{}, ghosts: map[string]Val{}}
+	if fc != nil && fc.NoVerify {
+		// body outside the symbolic executor's subset (goroutine hand-off): only its information-flow clauses are decided
+		c.flowObligations(fr)
+		return
+	}
 	res.Loops = len(fr.loops)
 	for _, p := range f.Params {
 		var pv Term
@@ -95,8 +100,59 @@ func (v *Verifier) VerifyFunc(f *ssa.Function, fc *FuncContract) (res *FuncResul
 	fr.onReturn = func(st2 *State, results []Val) {
 		c.topReturn(st2, fr, results, res)
 	}
+	c.flowObligations(fr)
 	c.execBlock(st, fr, f.Blocks[0], nil)
 	return
+}
+
+// flowObligations: explicit information flow (see flow.go); decided syntactically, reported like any other obligation
+func (c *Ctx) flowObligations(fr *Frame) {
+	v := c.V
+	if fr.fc == nil {
+		return
+	}
+	for _, fl := range fr.fc.Flows {
+		why := v.flowCheck(fr.fn, fl)
+		src := "flows " + fl.Text
+		if why != "" {
+			src += "  -- VIOLATED: " + fl.Src + " is " + why
+		}
+		c.oblige(newState(), fr, "flow", fl.Src, fl.Label, fr.fn.Pos(), mkBool(why == ""), fl.Props, src)
+	}
+	var fields []string
+	for k := range v.specs.Secrets {
+		fields = append(fields, k)
+	}
+	sort.Strings(fields)
+	for _, k := range fields {
+		sf := v.specs.Secrets[k]
+		mine := false
+		allowed := map[string]bool{}
+		for _, r := range sf.Readers {
+			allowed[r] = true
+		}
+		mine = len(sf.Readers) > 0 && sf.Readers[0] == c.Key // reported once, at the first listed reader
+		if !mine {
+			continue
+		}
+		// a function outside the list may still compare the field or take its length; anything else it does with the
+		// value (pass it on, store it, return it) is a flow nobody answers for
+		var extra []string
+		k2 := strings.LastIndex(sf.Field, ".")
+		for _, r := range v.secretReaders(sf.Field) {
+			if allowed[r] {
+				continue
+			}
+			if why := v.flowCheck(v.fnByKey[r], &FlowClause{Src: sf.Field[:k2] + "::." + sf.Field[k2+1:]}); why != "" {
+				extra = append(extra, r+": "+why)
+			}
+		}
+		src := "secret " + sf.Field + " flows only through " + strings.Join(sf.Readers, ", ")
+		if len(extra) > 0 {
+			src += "  -- VIOLATED: " + strings.Join(extra, "; ")
+		}
+		c.oblige(newState(), fr, "readers", shortOwner(sf.Field[:strings.LastIndex(sf.Field, ".")])+"."+sf.Field[strings.LastIndex(sf.Field, ".")+1:], "", fr.fn.Pos(), mkBool(len(extra) == 0), sf.Props, src)
+	}
 }
 
 // entryEnv: parameter names denote entry values; heap is the given state
